@@ -1,13 +1,13 @@
 package drv
 
 import (
-	"bytes"
 	"encoding/binary"
 	"encoding/json"
 	"fmt"
 	"os"
 	"reflect"
 	"strconv"
+	"strings"
 	"testing"
 
 	tbinary "go.uber.org/thriftrw/protocol/binary"
@@ -34,34 +34,97 @@ func be32(v int64) []byte {
 
 func fhdr(k wm.Kind, id int) []byte { return []byte{byte(k), byte(uint16(id) >> 8), byte(id)} }
 
+// Long payloads (see checks/c13): a binary that really is a little longer than
+// the stream reader's 1 MiB threshold and declares far more.
+var (
+	c13LongPayloads = []int{1<<20 + 1}
+	c13LongDeclared = []int64{1 << 29, 1<<31 - 1}
+)
+
+// c13Mismatch returns two element type codes other than e (fixed-width ones:
+// the generated readers skip the elements of a container that announces
+// another element type one by one).
+func c13Mismatch(e wm.Kind) []wm.Kind {
+	var out []wm.Kind
+	for _, m := range []wm.Kind{wm.KI64, wm.KBool, wm.KI32} {
+		if m != e && len(out) < 2 {
+			out = append(out, m)
+		}
+	}
+	return out
+}
+
+func bcat(bs ...[]byte) []byte {
+	var out []byte
+	for _, b := range bs {
+		out = append(out, b...)
+	}
+	return out
+}
+
 // lengthPositions returns (position class, message prefix up to and including
-// the hostile header) for the fields of a struct-shaped type.
-func lengthPositions(p *im.Program, fields []*im.Field, L int64, prefix []byte, depth int) [][2]interface{} {
+// the hostile header) for the fields of a struct-shaped type. With long set,
+// only the binary lengths, without any payload (the caller pads).
+func lengthPositions(p *im.Program, fields []*im.Field, L int64, prefix []byte, depth int, long bool) [][2]interface{} {
 	var out [][2]interface{}
 	few := []byte{0, 0, 0, 1, 0, 0, 0, 0}
 	for _, f := range fields {
 		r := p.Root(f.Type)
 		k := p.WireKind(f.Type)
 		h := append(append([]byte{}, prefix...), fhdr(k, f.ID)...)
+		if long {
+			switch r.K {
+			case im.TString, im.TBinary:
+				out = append(out, [2]interface{}{"long-binary", bcat(h, be32(L))})
+			case im.TRef:
+				d := p.Lookup(*r.Ref)
+				if d.IsStructLike() && depth < 1 {
+					for _, np := range lengthPositions(p, d.Fields, L, h, depth+1, long) {
+						out = append(out, [2]interface{}{"nested-" + np[0].(string), np[1]})
+					}
+				}
+			}
+			continue
+		}
 		switch r.K {
-		case im.TList:
-			out = append(out, [2]interface{}{"list-count", append(append(append(h, byte(p.WireKind(r.Elem))), be32(L)...), few...)})
-		case im.TSet:
-			out = append(out, [2]interface{}{"set-count", append(append(append(h, byte(p.WireKind(r.Elem))), be32(L)...), few...)})
+		case im.TList, im.TSet:
+			name := "list-count"
+			if r.K == im.TSet {
+				name = "set-count"
+			}
+			e := p.WireKind(r.Elem)
+			out = append(out, [2]interface{}{name, bcat(h, []byte{byte(e)}, be32(L), few)})
+			for _, m := range c13Mismatch(e) {
+				out = append(out, [2]interface{}{name + "-of-" + m.String(), bcat(h, []byte{byte(m)}, be32(L), few)})
+			}
 		case im.TMap:
-			out = append(out, [2]interface{}{"map-count", append(append(append(h, byte(p.WireKind(r.Key)), byte(p.WireKind(r.Val))), be32(L)...), few...)})
+			kk, vk := p.WireKind(r.Key), p.WireKind(r.Val)
+			out = append(out, [2]interface{}{"map-count", bcat(h, []byte{byte(kk), byte(vk)}, be32(L), few)})
+			k2, v2 := c13Mismatch(kk)[0], c13Mismatch(vk)[1]
+			for _, kv := range [][2]wm.Kind{{k2, vk}, {k2, v2}} {
+				out = append(out, [2]interface{}{"map-count-of-" + kv[0].String() + "," + kv[1].String(), bcat(h, []byte{byte(kv[0]), byte(kv[1])}, be32(L), few)})
+			}
 		case im.TString, im.TBinary:
 			out = append(out, [2]interface{}{"binary-length", append(append(h, be32(L)...), []byte("abcd")...)})
 		case im.TRef:
 			d := p.Lookup(*r.Ref)
 			if d.IsStructLike() && depth < 1 {
-				for _, np := range lengthPositions(p, d.Fields, L, h, depth+1) {
+				for _, np := range lengthPositions(p, d.Fields, L, h, depth+1, long) {
 					out = append(out, [2]interface{}{"nested-" + np[0].(string), np[1]})
 				}
 			}
 		}
 	}
 	return out
+}
+
+// c13Srcs are the concrete source types each API is run over ("" = the
+// historical one: *bytes.Reader for Decode, chunkio's plain reader for the stream).
+func c13Srcs(api string) []string {
+	if api == "gen/Decode/generated" {
+		return []string{"", chunkio.SrcBytesBuffer, chunkio.SrcBytesReader}
+	}
+	return []string{""}
 }
 
 func c13Call(c allocprobe.Case) error {
@@ -72,13 +135,13 @@ func c13Call(c allocprobe.Case) error {
 	x := reflect.New(t.RT).Interface().(Codec)
 	switch c.API {
 	case "gen/FromWire/generated":
-		v, err := tbinary.Default.Decode(bytes.NewReader(c.Msg), wire.Type(t.Kind()))
+		v, err := tbinary.Default.Decode(chunkio.NewAt(c.Msg, chunkio.AtPlan{Src: c.Src, EagerEOF: true}), wire.Type(t.Kind()))
 		if err != nil {
 			return err
 		}
 		return x.FromWire(v)
 	case "gen/Decode/generated":
-		sr := tbinary.Default.Reader(chunkio.New(c.Msg, chunkio.Plan{}))
+		sr := tbinary.Default.Reader(chunkio.New(c.Msg, chunkio.Plan{Src: c.Src}))
 		defer sr.Close()
 		return x.Decode(sr)
 	}
@@ -119,16 +182,36 @@ func C13Gen(t *testing.T) {
 		if !tg.StructLike() || (tg.Def != nil && !tg.Def.IsStructLike()) {
 			continue
 		}
-		for _, L := range c13Hostile {
-			for _, lp := range lengthPositions(tg.Prog.Schema, tg.FieldList(), L, nil, 0) {
-				for _, api := range []string{"gen/FromWire/generated", "gen/Decode/generated"} {
+		add := func(c allocprobe.Case) {
+			// matched element type and a big count: the open finding K1 (pre-sizing from the count, before the
+			// source is touched again) makes each of these cost up to gigabytes; default source only
+			k1 := strings.HasSuffix(c.Pos, "-count") && c.L > 1<<20
+			for _, api := range []string{"gen/FromWire/generated", "gen/Decode/generated"} {
+				for _, src := range c13Srcs(api) {
+					if k1 && src != "" {
+						continue
+					}
 					n++
 					if n%nshards != shard {
 						continue
 					}
-					cases = append(cases, allocprobe.Case{API: api, Msg: lp[1].([]byte), Pos: "field/" + lp[0].(string), L: L,
-						Extra: map[string]string{"prog": tg.Prog.ID, "target": tg.Key}})
+					c.API, c.Src = api, src
+					c.Extra = map[string]string{"prog": tg.Prog.ID, "target": tg.Key}
+					cases = append(cases, c)
 					headers = append(headers, header(tg))
+				}
+			}
+		}
+		for _, L := range c13Hostile {
+			for _, lp := range lengthPositions(tg.Prog.Schema, tg.FieldList(), L, nil, 0, false) {
+				add(allocprobe.Case{Msg: lp[1].([]byte), Pos: "field/" + lp[0].(string), L: L})
+			}
+		}
+		for _, L := range c13LongDeclared {
+			for _, lp := range lengthPositions(tg.Prog.Schema, tg.FieldList(), L, nil, 0, true) {
+				for _, np := range c13LongPayloads {
+					h := lp[1].([]byte)
+					add(allocprobe.Case{Msg: h, Pos: "field/" + lp[0].(string), L: L, PadAt: len(h), PadN: np, PadFill: 'x'})
 				}
 			}
 		}
@@ -137,6 +220,7 @@ func C13Gen(t *testing.T) {
 		t.Skip("no length position in this shard")
 	}
 	const batch = 400
+	complete := true
 	for i := 0; i < len(cases); i += batch {
 		j := i + batch
 		if j > len(cases) {
@@ -148,15 +232,23 @@ func C13Gen(t *testing.T) {
 		}
 		for k, c := range cases[i:j] {
 			r := res[k]
-			d := ev.Digest([]byte(c.API), c.Msg, []byte(c.Extra["prog"]+c.Extra["target"]))
-			ev.Case(d, true, "unit:c13-gen", "api:"+c.API, "pos:"+c.Pos, "status:"+firstWord(r.Status), "L:"+strconv.FormatInt(c.L, 10))
+			if r.Status == "skipped" { // the batch had failed allocprobe.MaxCPUStops times already
+				complete = false
+				continue
+			}
+			d := ev.Digest([]byte(c.API), c.Msg, []byte(c.Extra["prog"]+c.Extra["target"]), []byte(fmt.Sprintf("%s|%d|%d", c.Src, c.PadAt, c.PadN)))
+			src := c.Src
+			if src == "" {
+				src = "default"
+			}
+			ev.Case(d, true, "unit:c13-gen", "api:"+c.API, "pos:"+c.Pos, "status:"+firstWord(r.Status), "L:"+strconv.FormatInt(c.L, 10), "src:"+src, fmt.Sprintf("long-payload:%v", c.PadN > 0))
 			ev.KeepSample("c13-gen", d, func() interface{} {
-				return map[string]interface{}{"type": c.Extra["target"], "api": c.API, "pos": c.Pos, "L": c.L, "msg_hex": fmt.Sprintf("%x", c.Msg), "alloc_bytes": r.Alloc, "status": r.Status}
+				return map[string]interface{}{"type": c.Extra["target"], "api": c.API, "src": c.Src, "pad_n": c.PadN, "pos": c.Pos, "L": c.L, "msg_hex": fmt.Sprintf("%x", c.Msg), "alloc_bytes": r.Alloc, "status": r.Status}
 			})
 			ev.ReportSoft(t, "c13-gen", C13Case{CaseHeader: headers[i+k], Probe: c}, allocprobe.Verdict(c, r))
 		}
 	}
-	ev.Exhaustive("every binary / container field (top level and one struct level down) of every generated struct-like type of the lab x 5 hostile values x {FromWire(Decode), Decode(stream)}", true)
+	ev.Exhaustive("every binary / container field (top level and one struct level down) of every generated struct-like type of the lab x 5 hostile values (containers also announcing two other, fixed-width element types; binaries also with a real payload of 1 MiB+1 and 2^29 / 2^31-1 declared) x {FromWire(Decode), Decode(stream) over a plain reader, *bytes.Buffer, *bytes.Reader}", complete)
 }
 
 func firstWord(s string) string {
